@@ -1,4 +1,5 @@
 import NxProofs.Backend
+import NxProofs.BackendServe
 /-!
 # C17 — back-end login yields a secure connection authenticated as the issued user
 
@@ -170,5 +171,75 @@ theorem session_step_connect (cfg : Cfg) (steps : List Step) (k : Nat) (p : Plan
 example : (session ⟨⟨30000, 0, 0, 32, 4, "auth", 1⟩⟩
     [⟨⟨"u", none, false⟩, ⟨.fail 0x80010002, .fail 0⟩⟩, ⟨guestArgs, ⟨.fail 0x80030065, .fail 0⟩⟩]).map (·.outcome) =
     [.error (.rmc 0x80010002), .error (.rmc 0x80030065)] := by decide
+
+/-! ## the secure server over time: the same ticket shown again, stale tickets
+
+"A stale ticket never yields a connection" is a statement about every CONNECT that reaches a secure server object during
+its whole life, not about the first time the object sees a ticket. `Backend.serve` threads the server object
+(`SecureServer`: what `process_login_request` reads — key and settings, nothing about earlier tickets) through a list of
+CONNECT payloads at their instants (ticks of 2^-30 s); each verdict is `L1.loginRequestFn`, the C05 admission function, on
+the real bytes. Tied to the code in harness/corr_C17.py by timed login sessions: the authentication server hands out the
+byte-identical ticket at several logins while virtual time advances (fresh … just below / above 120 s … a day later), one
+long-lived secure server; every recorded call of `process_login_request` is compared with `serve`. -/
+
+/-- a presentation leaves the server object as it found it: there is no memory of tickets -/
+theorem present_leaves_server (s : SecureServer) (p : Presentation) : (s.present p).1 = s := present_server_unchanged s p
+
+/-- **history independence of admission**: the verdict on the k-th CONNECT of a server's life is the verdict a server that
+    has never seen anything gives on that payload at that instant — whether or not the ticket was presented (and
+    admitted) before -/
+theorem admission_history_independent (s : SecureServer) (ps : List Presentation) (k : Nat) :
+    ((serve s ps)[k]?).map (fun v => [v]) = ps[k]?.map (fun p => serve s [p]) := serve_step_alone s ps k
+
+theorem admission_after_any_prefix (s : SecureServer) (pre pre' : List Presentation) (p : Presentation) :
+    (serve s (pre ++ [p]))[pre.length]? = (serve s (pre' ++ [p]))[pre'.length]? := by
+  rw [serve_after_prefix, serve_after_prefix]
+
+/-- **a stale ticket is refused whatever the server has seen before** — in particular when `pre` contains the very same
+    payload at an instant at which it was admitted: a ticket whose time stamp lies more than 120 s before `now`
+    (`timestamp < time.time() - 120`) raises `ValueError` -/
+theorem stale_ticket_refused_after_any_history (s : SecureServer) (pre : List Presentation) (p : Presentation)
+    (td r1 rd r2 : Bytes) (ticket : Nex.Kerberos.ServerTicket) (ts : Int)
+    (h1 : Nex.rBuffer p.data = .ok (td, r1)) (h2 : Nex.rBuffer r1 = .ok (rd, r2))
+    (h3 : Nex.Kerberos.ServerTicket.decrypt s.kc s.key td = .ok ticket)
+    (h4 : Nex.DateTime.timestamp s.tz ticket.timestamp = .ok ts)
+    (h5 : (ts + 120 - (s.epoch : Int)) * 1073741824 < (p.now : Int)) :
+    (serve s (pre ++ [p]))[pre.length]? = some (.refuse .value) := by
+  rw [serve_after_prefix, present_stale s p td r1 rd r2 ticket ts h1 h2 h3 h4 h5]
+
+/-- conversely every admission — the first or the hundredth of a ticket — proves the ticket at most 120 s old at that
+    instant, and admits the identity and session key inside the ticket -/
+theorem admitted_ticket_is_young (s : SecureServer) (ps : List Presentation) (k : Nat) (p : Presentation)
+    (pid cid : Nat) (sk resp : Bytes) (hp : ps[k]? = some p) (h : (serve s ps)[k]? = some (.accepted pid cid sk resp)) :
+    ∃ td r1 ticket ts, Nex.rBuffer p.data = .ok (td, r1) ∧
+      Nex.Kerberos.ServerTicket.decrypt s.kc s.key td = .ok ticket ∧
+      Nex.DateTime.timestamp s.tz ticket.timestamp = .ok ts ∧
+      ¬ ((ts + 120 - (s.epoch : Int)) * 1073741824 < (p.now : Int)) ∧
+      pid = ticket.source ∧ sk = ticket.sessionKey := by
+  rw [serve_getElem?, hp] at h
+  exact present_admit_inv s p pid cid sk resp (by simpa using h)
+
+/-- **`C17_pid` on the model (client and server composed)**: the CONNECT payload built from the credentials a plan ends in
+    (`connect_credentials`: pid = the pid the authentication server issued), when admitted by the secure server under a
+    ticket carrying the credentials' session key, is admitted as exactly that pid and cid and answered with `check + 1`
+    (which is what `check_connection_response` demands), for every connection check the endpoint may have drawn. -/
+theorem connect_admitted_as_issued (s : SecureServer) (c : Connect) (check : Nat) (data : Bytes) (now : Nat)
+    (pid cid : Nat) (sk resp : Bytes)
+    (hreq : connectRequest s.kc.pidSize c check = .ok data)
+    (h : (s.present ⟨data, now⟩).2 = .accepted pid cid sk resp) (hsk : sk = c.ticket.sessionKey) :
+    pid = c.pid ∧ cid = c.cid ∧ resp = u32le 4 ++ u32le ((check + 1) % 4294967296) :=
+  connect_request_admitted s c check data now pid cid sk resp hreq h hsk
+
+/-! non-vacuity. The hypotheses of `stale_ticket_refused_after_any_history` at a concrete point: a ticket stamped
+    2023-11-14 22:13:20 UTC (epoch second 1700000000 — the simulation's epoch) is not stale 120 s later and is stale one tick
+    (2^-30 s) after that. Concrete tickets under real keys are evaluated by the compiled driver on every run (`serve` lines of
+    harness/corr_C17.py: every recorded `process_login_request`, e.g. the same CONNECT payload accepted at 119.75 s and refused at
+    120.25 s and a day later); in the kernel the two HMAC-MD5 + RC4 of one admission take minutes, so no `decide` example here. -/
+example : Nex.DateTime.timestamp 0 (Nex.DateTime.make ⟨2023, 11, 14, 22, 13, 20⟩) = .ok 1700000000 := by decide
+example : ¬ (((1700000000 : Int) + 120 - ((1700000000 : Nat) : Int)) * 1073741824 < ((120 * 1073741824 : Nat) : Int)) := by decide
+example : ((1700000000 : Int) + 120 - ((1700000000 : Nat) : Int)) * 1073741824 < ((120 * 1073741824 + 1 : Nat) : Int) := by decide
+/-- `serve` computes: payloads that are not two buffers are refused with the stream's own exception, at any instant, in any order -/
+example : serve ⟨⟨16, 4, 0⟩, 1700000000, 0, [107]⟩ [⟨[], 5⟩, ⟨[1, 0, 0, 0], 6⟩, ⟨[], 7⟩] =
+    [.refuse .overflow, .refuse .overflow, .refuse .overflow] := by decide
 
 end Nx.C17
